@@ -183,6 +183,18 @@ def r4_2(ctx: Ctx) -> None:
             # find the if-statements whose test contains this read
             guards = [i for i in ast.walk(fn.node) if isinstance(i, ast.If) and any(x is r for x in ast.walk(i.test))]
             if not guards:
+                # the switch may be held in a local first (`log = SIM_OUTPUT.x` ... `if log:`): the ifs testing that local guard it,
+                # provided the local is used for nothing but such tests
+                holder = next((a for a in ast.walk(fn.node) if isinstance(a, ast.Assign) and len(a.targets) == 1 and isinstance(a.targets[0], ast.Name)
+                               and any(x is r for x in ast.walk(a.value))), None)
+                if holder is not None:
+                    nm = holder.targets[0].id
+                    loads = [x for x in ast.walk(fn.node) if isinstance(x, ast.Name) and x.id == nm and isinstance(x.ctx, ast.Load)]
+                    tests = [i for i in ast.walk(fn.node) if isinstance(i, ast.If) and any(isinstance(x, ast.Name) and x.id == nm for x in ast.walk(i.test))]
+                    in_tests = {id(x) for i in tests for x in ast.walk(i.test)}
+                    if loads and all(id(x) in in_tests for x in loads) and len(LocalDefs(fn.node).defs.get(nm, [])) == 1:
+                        guards = tests
+            if not guards:
                 ctx.fail("R4.2", key, fn.loc(r), f"output switch SIM_OUTPUT.{r.attr} is read outside a guard of logging statements")
                 continue
             bad = []
